@@ -10,7 +10,7 @@ vec_matrix.rs / matrix.rs (Model/PrimeResidue.lean, Model/LinAlg.lean).
     no_panic_square_{i64,rat,prc};
   meaning in Mathlib's `Matrix` (ℤ/ℚ for machine integers, ℚ for BigRational, ZMod p):
     echelon_invariant_{i64,rat,prc} (multiplier·input = result, det multiplier = (-1)^swaps,
-    row-echelon form), solve_sound_{i64,rat,prc}, solve_complete_{rat,prc}, solve_none_i64,
+    row-echelon form), solve_sound_{i64,rat,prc}, solve_complete_{rat,prc} (completeness over the fields only),
     inverse_sound_i64, inverse_iff_{rat,prc} (Some ⇔ rank = n), rank_eq_{i64,rat,prc}
     (= Matrix.rank), determinant_eq_{i64,rat,prc} (= Matrix.det), null_space_spec
     (cols − rank columns, A·N = 0, linearly independent), sem_instances;
@@ -298,13 +298,12 @@ theorem solve_sound_i64 {nr nc k : Nat} (a : Mat Int nr nc) (b : Mat Int nr k) (
     (h : solve (i64Backend .ok) a b = .ok x) : toMatrixZ a * toMatrixZ x = toMatrixZ b :=
   toMatrixZ_mul_eq (solve_sound i64_sem a b (allE_true a) (allE_true b) x h)
 
-/-- machine integers: `None` means the system is inconsistent over ℚ, or `can_divide` refused
-    a non-zero divisor (the property demands completeness only over a field) -/
-theorem solve_none_i64 {nr nc k : Nat} (a : Mat Int nr nc) (b : Mat Int nr k)
-    (h : solve (i64Backend .ok) a b = .err) :
-    (∀ X : Matrix (Fin nc) (Fin k) ℚ, toMatrix valI a * X ≠ toMatrix valI b) ∨
-      CanDivideRefused (i64Backend .ok) TrueP valI :=
-  solve_err i64_sem a b (allE_true a) (allE_true b) h
+/- Completeness of `solve` is claimed over the two fields only (`solve_complete_rat`,
+   `solve_complete_prc`).  For machine integers `solve` may return `None` on a system that is
+   consistent over ℚ (back-substitution gives up at the first inexact division); no theorem
+   about what such a `None` means is stated: a former `solve_none_i64` had a disjunct
+   (`CanDivideRefused`, "some non-zero divisor is refused for some dividend") that is a closed
+   true statement for ℤ and therefore said nothing. -/
 
 theorem solve_sound_rat {nr nc k : Nat} (a : Mat Q nr nc) (b : Mat Q nr k) (ha : AllE QWF a)
     (hb : AllE QWF b) (x : Mat Q nc k) (h : solve ratBackend a b = .ok x) :
